@@ -1144,4 +1144,46 @@ def OpTree.indexOk : OpTree → Bool
 /-- the Jacobian rows of an AdArray -/
 def jacRows (a : Ad) : List (List Rat) := a.map (·.g)
 
+/-- decidable form of `EnvWF` (checked by the driver on every case) -/
+def envWFb (e : Env) : Bool :=
+  e.timeVals.all (fun v => v.length == e.N) && e.iterVals.all (fun v => v.length == e.N)
+
+/-- every operator object appearing in a python expression has private indices `-1` or stored ones
+    (what the constructors of Variable / TimeDependentDenseArray produce: `-1`) -/
+def PyExpr.leavesOk : PyExpr → Bool
+  | .tree t => t.indexOk
+  | .raw _ => true
+  | .bin _ a b => a.leavesOk && b.leavesOk
+  | .neg a => a.leavesOk
+  | .prevTime _ a => a.leavesOk
+  | .prevIter _ a => a.leavesOk
+  | .call1 _ a => a.leavesOk
+  | .call2 _ a b => a.leavesOk && b.leavesOk
+
+def Built.indexOk : Built → Bool
+  | .tree t => t.indexOk
+  | .raw _ => true
+
+/-- `AdParser.evaluate` with the option `state=None`: the values stored at iterate index 0 -/
+def withState (e : Env) (state : Option Vec) : R Env :=
+  match state with
+  | some s => .ok { e with state := s }
+  | none =>
+    match e.iterVals[0]? with
+    | some s => .ok { e with state := s }
+    | none => .error .keyError
+
+def evaluateOpt (deriv : Bool) (e : Env) (state : Option Vec) (t : OpTree) : R Value := do
+  let e' ← withState e state
+  evaluate deriv e' t
+
+/-- the deprecated entry points `Operator.value_and_jacobian` / `Operator.value`: they call
+    `EquationSystem.evaluate` and (the first) repeat the wrapping into an AdArray -/
+def valueAndJacobian (e : Env) (state : Option Vec) (t : OpTree) : R Value := do
+  let e' ← withState e state
+  let v ← evaluate true e' t
+  finish e'.N true v
+
+def valueOnly (e : Env) (state : Option Vec) (t : OpTree) : R Value := evaluateOpt false e state t
+
 end PorepyVerif.C02
